@@ -285,16 +285,21 @@ def run(prog, rep):
     # on an existing name silently keeps the old counter)
     raw_nw = u.fn("p_semaphore_new", raw=True)
     pnames = raw_nw.param_names()
-    crt = [(b, i, c) for (b, i, c) in raw_nw.calls() if c.get("callee") in u.functions and c.get("args") and strip_casts(c["args"][0])["k"] == "ref"
-           and any(cc.get("callee") == "sem_open" for (b2, i2, cc) in u.functions[c["callee"]].inlined().calls())]
+    # the view: static helpers folded in (the recording may live in a `setup` helper), except the ones that reach sem_open - their
+    # call is the create path
+    creators = sorted(f_.name for f_ in u.functions.values() if f_.name != raw_nw.name and any(cc.get("callee") == "sem_open" for (b2, i2, cc) in f_.inlined().calls()))
+    view = raw_nw.inlined(skip=tuple(creators))
+    crt = [(b, i, c) for (b, i, c) in view.calls() if c.get("callee") in creators]
+    if len(crt) != 1:
+        raise AnalysisBroken("p_semaphore_new: expected one call into the create path (a static function reaching sem_open), found %d" % len(crt))
     for fld, pidx in (("mode", 2), ("init_val", 1)):
-        sts_ = [(b, i, n) for (b, i, n) in raw_nw.nodes(elsewhere=True) if n["k"] == "asg" and strip_casts(n["l"])["k"] == "member" and strip_casts(n["l"])["field"] == fld]
+        sts_ = [(b, i, n) for (b, i, n) in view.nodes(elsewhere=True) if n["k"] == "asg" and strip_casts(n["l"])["k"] == "member" and strip_casts(n["l"])["field"] == fld]
         wide = True
         if len(sts_) == 1:
             tl_, tr_ = u.type_of(strip_casts(sts_[0][2]["l"])), u.type_of(strip_casts(sts_[0][2]["r"]))
             wide = not (tl_ and tr_ and tl_.get("w") and tr_.get("w") and tl_["w"] < tr_["w"])
-        okp = wide and len(sts_) == 1 and len(pnames) > pidx and root_var(sts_[0][2]["r"]) == pnames[pidx] and strip_casts(sts_[0][2]["r"])["k"] == "ref" and len(crt) == 1 \
-            and raw_nw.pos_dominates((sts_[0][0].id, sts_[0][1]), (crt[0][0].id, crt[0][1]))
+        okp = wide and len(sts_) == 1 and len(pnames) > pidx and root_var(sts_[0][2]["r"]) in view.copies_of(pnames[pidx]) and strip_casts(sts_[0][2]["r"])["k"] == "ref" \
+            and view.pos_dominates((sts_[0][0].id, sts_[0][1]), (crt[0][0].id, crt[0][1]))
         rep.ob("C06.4", raw_nw, "records:" + fld, okp, "the handle's %s is the caller's argument, stored before the create path runs" % fld if okp else
                ("line %d: the handle keeps the %s argument in a field narrower than the argument: values above the field's range are stored modulo its width and the semaphore "
                 "is created with another count than the caller gave" % (line(sts_[0][2]), fld)) if not wide else
